@@ -5,11 +5,14 @@
 use vstd::prelude::*;
 verus! {
 
+// @@SHARED-TYPES-BEGIN
 /*@type lang/syntax/src/lib.rs :: enum IntegerType @*/
 /*@type lang/syntax/src/lib.rs :: enum IntegerLiteral @*/
+// @@SHARED-TYPES-END
 /*@type lang/syntax/src/lib.rs :: enum IntegerOperation @*/
 /*@type lang/syntax/src/lib.rs :: enum FloatOperation @*/
 
+// @@SHARED-SPEC-BEGIN
 // ---- mathematical specification, written from the property statement (never from the code) ----
 pub open spec fn bits(t: IntegerType) -> nat {
     match t {
@@ -79,6 +82,7 @@ pub assume_specification[ <i128 as core::convert::From<u16>>::from ](v: u16) -> 
 pub assume_specification[ <i128 as core::convert::From<u32>>::from ](v: u32) -> (r: i128) ensures r == v as int;
 pub assume_specification[ <i128 as core::convert::From<u64>>::from ](v: u64) -> (r: i128) ensures r == v as int;
 
+// @@SHARED-SPEC-END
 impl IntegerType {
 /*@fn lang/syntax/src/lib.rs :: impl IntegerType :: fn is_signed
 @*/
@@ -89,6 +93,7 @@ impl IntegerType {
 }
 
 impl IntegerLiteral {
+// @@SHARED-IMPL-BEGIN
 /*@fn lang/syntax/src/lib.rs :: impl IntegerLiteral :: fn new
 @*/
     ensures
@@ -114,6 +119,7 @@ impl IntegerLiteral {
         r.is_some() ==> mtype(r.unwrap()) == Some(integer_type),
 /*@end*/
 
+// @@SHARED-IMPL-END
 /*@fn lang/syntax/src/lib.rs :: impl IntegerLiteral :: fn from_value
 @*/
     requires
